@@ -865,40 +865,41 @@ func (sc *segmentController[T, O]) create(ctx context.Context, start time.Time) 
 		}
 	}
 	options := sc.getOptions()
-	// Anchor stdEnd to the aligned start before any bump so end stays on the
-	// global grid even when start is bumped past a legacy off-grid neighbor;
-	// subsequent segments then self-heal back to the grid.
-	alignedStart := options.SegmentInterval.Standard(start)
+	// Anchor stdEnd to the aligned start so end stays on the global grid even
+	// when start is bumped past a legacy off-grid neighbor; subsequent segments
+	// then self-heal back to the grid.
+	ts := start
+	alignedStart := options.SegmentInterval.Standard(ts)
 	stdEnd := options.SegmentInterval.NextTime(alignedStart)
 	start = alignedStart
-	// sc.lst is sorted ascending by start time with non-overlapping ranges;
-	// a single pass bumps start past every legacy segment that swallows it
-	// (each next segment.Start >= previous.End).
-	var next *segment[T, O]
+	end := stdEnd
+	// sc.lst is sorted ascending by start time with non-overlapping ranges and
+	// none of them contains ts (checked above). Legacy off-grid segments (e.g.
+	// created under a previous interval) may occupy parts of the grid bucket:
+	// the new segment is the free part of the bucket AROUND ts, so it starts at
+	// the end of the last neighbor at or before ts and ends at the start of the
+	// first neighbor after ts.
 	for _, s := range sc.lst {
-		if s.Contains(start.UnixNano()) {
-			start = s.End
+		if !s.End.After(ts) {
+			if s.End.After(start) {
+				start = s.End
+			}
 			continue
 		}
-		if next == nil && s.Start.After(start) {
-			next = s
+		if s.Start.Before(end) {
+			end = s.Start
 		}
+		break
 	}
-	var end time.Time
-	if next != nil && next.Start.Before(stdEnd) {
-		// `next` starts inside the current grid bucket - a legacy off-grid
-		// segment whose TTL hasn't elapsed. Cap end at next.Start to avoid
-		// overlap; surfacing this at Info level lets operators see the
-		// abnormal span until the legacy neighbor ages out.
+	if !start.Equal(alignedStart) || !end.Equal(stdEnd) {
+		// Surfacing this at Info level lets operators see the abnormal span
+		// until the legacy neighbors age out.
 		sc.l.Info().
 			Stringer("alignedStart", alignedStart).
-			Stringer("bumpedStart", start).
-			Stringer("nextStart", next.Start).
+			Stringer("start", start).
+			Stringer("end", end).
 			Stringer("stdEnd", stdEnd).
 			Msg("new segment span is shorter than configured SegmentInterval due to an unaligned legacy neighbor")
-		end = next.Start
-	} else {
-		end = stdEnd
 	}
 	segPath := path.Join(sc.location, fmt.Sprintf(segTemplate, sc.format(start)))
 	sc.lfs.MkdirPanicIfExist(segPath, DirPerm)
